@@ -330,3 +330,32 @@ def vacuity_check(res, required_actions, what):
     missing = [a for a in required_actions if res["actions"].get(a, [0, 0])[1] == 0]
     if missing:
         raise ToolError("%s: vacuous model run, actions never taken: %s" % (what, missing))
+
+
+def tlc_simulate(job, module, cfg_name, num, depth, seed, timeout=600):
+    """Run TLC's simulator and return the JSON strings printed as <<"REPLAY", "...">> (maximal behaviours only)."""
+    cfg_text = open(os.path.join(SPEC, cfg_name)).read()
+    d = _stage(job, None, cfg_text, module + ".cfg")
+    cmd = ["timeout", str(timeout), "java", "-XX:+UseParallelGC", "-Xss64m", "-cp",
+           "/opt/veriftools/tla/tla2tools.jar:/opt/veriftools/tla/CommunityModules-deps.jar", "tlc2.TLC", "-workers", "1",
+           "-simulate", "num=%d" % num, "-depth", str(depth), "-seed", str(seed), "-metadir", os.path.join(d, "states"),
+           "-noGenerateSpecTE", "-config", module + ".cfg", module + ".tla"]
+    p = subprocess.run(cmd, cwd=d, stdout=subprocess.PIPE, stderr=subprocess.STDOUT, text=True)
+    out = p.stdout
+    shutil.rmtree(d, ignore_errors=True)
+    if p.returncode == 124:
+        raise ToolError("TLC simulation timed out (%s)" % module)
+    if re.search(r"Error: (Invariant|The first argument of Assert|Evaluating|TLC threw)", out):
+        m = re.search(r"Error: [^\n]*(\n[^\n]*){0,4}", out)
+        raise ToolError("TLC simulation of %s failed: %s" % (module, m.group(0) if m else out[-800:]))
+    lines = []
+    for l in out.splitlines():
+        m = re.match(r'<<"REPLAY", "(.*)">>\s*$', l)
+        if m:
+            lines.append(m.group(1).replace('\\"', '"'))
+    keep = []
+    for i, s in enumerate(lines):
+        if i + 1 < len(lines) and lines[i + 1].startswith(s[:-1]):
+            continue
+        keep.append(s)
+    return keep
